@@ -3,18 +3,21 @@ pub type Blk = Seq<u8>;
 pub type Abs = Seq<Seq<u8>>;
 pub type Step = spec_fn(Abs, Blk) -> (Abs, Blk);
 
-pub trait Unsigned { const USIZE: usize; }
+pub trait Unsigned { const USIZE: usize; const U8: u8; }
 pub trait ArraySize: Unsigned + Sized + 'static {}
 pub trait BlockSizes: ArraySize {
-    proof fn block_size_bounds() ensures 1 <= Self::USIZE <= 255;
+    // typenum: U8 is the same number as USIZE (it fits because block sizes are below 256)
+    proof fn block_size_bounds() ensures 1 <= Self::USIZE <= 255, Self::U8 as int == Self::USIZE as int;
 }
 
 pub struct U1;
-impl Unsigned for U1 { #[verifier::external_body] const USIZE: usize = 1; }
+impl Unsigned for U1 { #[verifier::external_body] const USIZE: usize = 1; #[verifier::external_body] const U8: u8 = 1; }
 impl ArraySize for U1 {}
 #[verifier::external_body]
 pub broadcast proof fn axiom_u1() ensures #[trigger] U1::USIZE == 1 {}
-impl BlockSizes for U1 { proof fn block_size_bounds() { broadcast use axiom_u1; } }
+#[verifier::external_body]
+pub broadcast proof fn axiom_u1_u8() ensures #[trigger] U1::U8 == 1 {}
+impl BlockSizes for U1 { proof fn block_size_bounds() { broadcast use axiom_u1, axiom_u1_u8; } }
 
 #[verifier::external_body]
 #[verifier::accept_recursive_types(T)]
